@@ -32,6 +32,29 @@
 //   C06  add_suitable_start_and_end_depot_to_path: refused only if the path does not end with a depot and the network has no
 //        end depot node; `expect("There should be at least the overflow depot available.")` cannot panic under the
 //        precondition some_depot_has_room (see PRECONDITIONS).
+//   C10 / C09 / C11  CLOSURE (the induction step of "after any sequence of schedule modifications" / "for every reachable schedule"):
+//        on Ok((r, id)) the result satisfies the schedule-invariant bundle sv_ok() of the precondition AGAIN, conjunct by conjunct
+//        (obligation C10.spawn_vehicle.result_satisfies_the_schedule_invariants_again; spcl_closed / spcl_lemma_closure in the last
+//        block of env/spawn_vehicle_shim.vs, proved from the effect clauses of this contract -- spcl_step = spawned, listed,
+//        formations_follow, transitions_follow, usage_exact -- so a slice that stubs spawn_vehicle_for_path with the OLD contract
+//        text can call spcl_lemma_closure itself):
+//          unconditionally: Network::wf, depot_lists_ok (the network is the same); sv_ids_ok; of sv_formations_ok the clauses
+//            "every activity has a formation entry", "a service trip's type is a type of the network" and the C09 clause "the cached
+//            unserved-passengers pair covers every duplicate-free list of nodes" (re-established from the clause ITSELF and the
+//            exact delta of update_train_formation: spcl_lemma_unserved_covers); transitions_ok INCLUDING its magnitude clause
+//            (the cycles hold exactly the vehicles, ids are 16 bit: at most 2^16 < 2^17); usage_exact w.r.t. r's own network;
+//          under a hypothesis on the RESULT (magnitude clauses that the operation does not preserve -- every formation along the new
+//            tour grows by one vehicle, the costs grow by the tour's costs -- and that sv_ok cannot bound, because it does not relate
+//            the length of a formation to the number of vehicles): "a formation lists at most 2^17 vehicles" if it holds for the
+//            formations that GREW (spcl_grown_len_small: the activities of the new tour); "the u32 capacity / seat sums fit with one
+//            more vehicle of any type" if it holds for the formations that grew (spcl_grown_sums_fit); `costs <= 2^61` is its own
+//            hypothesis.  With the three hypotheses: r.sv_formations_ok(), r.sv_ok().
+//        Treated as "schedule invariant": all seven conjuncts of sv_ok().  Treated as "about the arguments" (no closure claimed):
+//        type_known(vehicle_type_idx), the clauses about the path (non-empty, nodes of the network, A-len, spawn_counter_ok),
+//        usage_counts_small / some_depot_has_room for the type.  Of these, what does not depend on the path is kept as well: every
+//        known type stays known, start_depots_ok (same network); usage_counts_small follows from r.sv_ok (lemma_usage_counts_small);
+//        some_depot_has_room is NOT preserved (a depot fills up).
+//        add_suitable_start_and_end_depot_to_path takes `&self` and returns a node list: there is no result schedule, no closure clause.
 //
 // ASSUMPTIONS introduced / used by this slice:
 //   A-stub   not verified in any slice, contract written from the body:
@@ -106,8 +129,9 @@
 //     its own precondition, from_tours (slices/sched_ctor.vs) derives it for every intermediate schedule from the stated
 //     instance-level fact some_depot_hosts_all (a depot listing the types without limit whose total capacity is at least the
 //     number of given tours); C17 (the computed capacity of the overflow depot) is not connected to either;
-//   * that the result satisfies sv_ok again (invariant preservation) beyond what the postconditions state (usage_exact,
-//     sorted / matching listings, transitions consistent with the new tours); that the callers establish the preconditions;
+//   * closure of the MAGNITUDE clauses of sv_ok (formation length <= 2^17, u32 capacity / seat sums with one more vehicle,
+//     costs <= 2^61): only under the stated hypotheses on the result (see CLOSURE above); listings_match is not part of sv_ok and
+//     is preserved separately (C10.spawn_vehicle.listings_still_match); that the callers establish the preconditions;
 //   * D12 (fixed in /repo, `fix:` 56e2050): if the path starts with a depot that cannot spawn the vehicle, the unfixed
 //     add_suitable_start_and_end_depot_to_path overwrote the FIRST AND THE LAST node with the overflow depot's nodes
 //     whatever the last node was: [full start depot, trip a, trip b] became [overflow start, trip a, overflow end].
@@ -501,6 +525,35 @@ impl Clone for TransitionCycle {
             && usage_exact(r->Ok_0.0.depot_usage@, &self.network, r->Ok_0.0.vehicles@, r->Ok_0.0.tours@), // @obl C09.spawn_vehicle.depot_usage_exact
         // C15 / C10 / C09: rotation cycles and maintenance violation
         r is Ok ==> self.transitions_follow(vehicle_type_idx, &r->Ok_0.0), // @obl C10.spawn_vehicle.transitions_follow_new_tours
+        // ---- CLOSURE (C10 "after any sequence of schedule modifications", C09 / C11 "for every reachable schedule"): the result
+        // satisfies the schedule-invariant bundle sv_ok() of the precondition AGAIN, conjunct by conjunct (spcl_lemma_closure,
+        // env/spawn_vehicle_shim.vs).  Instance validity: the network is the same
+        r is Ok ==> r->Ok_0.0.network.wf() && depot_lists_ok(&r->Ok_0.0.network), // @obl C10.spawn_vehicle.result_satisfies_the_schedule_invariants_again
+        // ids / listings: vehicles under their own `Vehicle` id below the counter, with a tour; dummies under `Dummy` ids; id lists sorted
+        r is Ok ==> r->Ok_0.0.sv_ids_ok(), // @obl C10.spawn_vehicle.result_satisfies_the_schedule_invariants_again
+        // formations: every activity has an entry; the instance clause (A-types); C09: the cached unserved-passengers pair covers
+        // every duplicate-free list of nodes w.r.t. the NEW table (re-established from the clause itself and the exact delta)
+        r is Ok ==> r->Ok_0.0.spcl_forms_cover_activities() && r->Ok_0.0.spcl_trips_typed() && r->Ok_0.0.spcl_unserved_covers(), // @obl C10.spawn_vehicle.result_satisfies_the_schedule_invariants_again
+        // formations, MAGNITUDE clauses (at most 2^17 vehicles per formation; the u32 capacity / seat sums fit with one more vehicle):
+        // NOT invariants of the operation (every formation along the new tour grows by one vehicle, and sv_ok does not relate the
+        // length of a formation to the number of vehicles); they hold again under the weakest hypothesis on the RESULT: the clause
+        // itself for the formations that grew (the activities of the new tour) -- everywhere else it is inherited
+        r is Ok && r->Ok_0.0.spcl_grown_len_small(r->Ok_0.0.tours@[r->Ok_0.1].nodes@) ==> r->Ok_0.0.spcl_forms_len_small(), // @obl C10.spawn_vehicle.result_satisfies_the_schedule_invariants_again
+        r is Ok && r->Ok_0.0.spcl_grown_sums_fit(r->Ok_0.0.tours@[r->Ok_0.1].nodes@) ==> r->Ok_0.0.spcl_forms_sums_fit(), // @obl C10.spawn_vehicle.result_satisfies_the_schedule_invariants_again
+        r is Ok && r->Ok_0.0.spcl_grown_len_small(r->Ok_0.0.tours@[r->Ok_0.1].nodes@) && r->Ok_0.0.spcl_grown_sums_fit(r->Ok_0.0.tours@[r->Ok_0.1].nodes@)
+            ==> r->Ok_0.0.sv_formations_ok(), // @obl C10.spawn_vehicle.result_satisfies_the_schedule_invariants_again
+        // rotation cycles: every clause of transitions_ok, INCLUDING its magnitude clause (fewer than 2^17 vehicles in the cycles:
+        // they hold exactly the vehicles, and ids are 16 bit)
+        r is Ok ==> r->Ok_0.0.transitions_ok(), // @obl C10.spawn_vehicle.result_satisfies_the_schedule_invariants_again
+        // depot usage: exact w.r.t. the result's own network
+        r is Ok ==> usage_exact(r->Ok_0.0.depot_usage@, &r->Ok_0.0.network, r->Ok_0.0.vehicles@, r->Ok_0.0.tours@), // @obl C10.spawn_vehicle.result_satisfies_the_schedule_invariants_again
+        // the bundle.  `costs <= 2^61` is a magnitude clause, too, and not an invariant (costs grow by the costs of the new tour):
+        // it is a hypothesis on the result
+        r is Ok && r->Ok_0.0.spcl_grown_len_small(r->Ok_0.0.tours@[r->Ok_0.1].nodes@) && r->Ok_0.0.spcl_grown_sums_fit(r->Ok_0.0.tours@[r->Ok_0.1].nodes@)
+            && r->Ok_0.0.costs <= sched_cost_bound() ==> r->Ok_0.0.sv_ok(), // @obl C10.spawn_vehicle.result_satisfies_the_schedule_invariants_again
+        // the preconditions outside sv_ok that are not about the path: a known vehicle type stays known; A-index for the start depots
+        r is Ok ==> forall|t: VehicleTypeIdx| self.type_known(t) ==> #[trigger] r->Ok_0.0.type_known(t), // @obl C10.spawn_vehicle.result_satisfies_the_schedule_invariants_again
+        r is Ok ==> r->Ok_0.0.network.start_depots_ok(), // @obl C10.spawn_vehicle.result_satisfies_the_schedule_invariants_again
 //@closure any#0
     -> (b: bool) requires self.network.has(*n) ensures b == !self.network.sp_compatible(*n, vehicle_type_idx) /* @obl C01.spawn_vehicle.only_compatible_nodes */
 //@closure unwrap_or_else#0
@@ -552,6 +605,13 @@ impl Clone for TransitionCycle {
                     assert(sp_spawned(depot_usage@, d, vt).contains(id) <==> starts_at(&self.network, vehicles@, tours@, id, d, vt));
                 }
                 lemma_spawn_keeps_depot_limits(self, n0, vehicle_type_idx, self.depot_usage@, depot_usage@, id); // @obl C02.spawn_vehicle.depot_limits_hold_after_the_spawn
+            }
+            // CLOSURE: whatever schedule is built from these parts (the tail expression `Ok((Schedule::new(..), vehicle_id))` has no
+            // name yet) and satisfies the effect clauses above, satisfies the invariant bundle again
+            assert forall|s1: Schedule| #![trigger s1.transitions_ok()] #![trigger s1.sv_ok()] #![trigger s1.sv_formations_ok()] #![trigger s1.spcl_unserved_covers()] #![trigger s1.sv_ids_ok()]
+                self.spcl_step(vehicle_type_idx, path, &s1, id)
+                implies spcl_closed(self, &s1, id) by {
+                spcl_lemma_closure(self, &s1, vehicle_type_idx, path, id); // @obl C10.spawn_vehicle.result_satisfies_the_schedule_invariants_again
             }
         }
 //@end
